@@ -116,7 +116,16 @@ public:
 
   Entry& createOrReplace(const std::string& name, const std::vector<Symbol>& params);
 
+  /**
+   * Revert the declarations created or replaced since the last commit, the
+   * most recent first.
+   */
   void rollback();
+
+  /**
+   * Validate the declarations created or replaced until now.
+   */
+  void commit() { _journal.clear(); }
 
   Entry& getDeclaration(unsigned id)
   {
@@ -175,7 +184,10 @@ public:
 private:
   Context& _root;
   container _declarations;
-  FunctorPtr _backed;
+  /* declarations changed since the last commit: the entry id, and the
+   * replaced functor or null for a new entry */
+  struct Change { unsigned id; FunctorPtr backed; };
+  std::vector<Change> _journal;
 };
 
 }
